@@ -18,11 +18,14 @@ package vgirpc
 //@   establishes result <==> failureInChain(err)
 //@   ensures [direct] typeof(err) == *AuthFailure ==> result && *out == as(err, "*AuthFailure")
 
-// authenticate: 503 exactly for an unavailable authority (with its Retry-After), 401 for a
+// writeAuthError: 503 exactly for an unavailable authority (with its Retry-After), 401 for a
 // rejection (an AuthFailure in the chain, or a directly returned ValueError / PermissionError
-// RpcError), 500 for anything else; nil whenever an error response was written.
+// RpcError), 500 for anything else. authenticate answers every authenticator error through it
+// and returns nil then; so do the PKCE-wrapped page routes (repaired defect: they called the
+// authenticator themselves and answered EVERY error 401 — or started a login during an outage,
+// or, with discovery down, wrote nothing at all), which start a login only for a rejection.
 //
-//@ func (*HttpServer).authenticate
+//@ func (*HttpServer).writeAuthError
 //@   property C23
 //@   at call http.Error#1 assert [s503] arg2 == 503 && unavailableInChain(err)
 //@   at call (http.Header).Set#1 assert [retryafter] arg1 == "Retry-After" && unavailableInChain(err)
@@ -31,9 +34,26 @@ package vgirpc
 //@   at call (*HttpServer).writeUnauthorized assert [rendered] arg3 == reason && arg4 == detail
 //@   at call http.Error#2 assert [s500] arg2 == 500 && !unavailableInChain(err) && !failureInChain(err) && !directRpc(err, "ValueError") && !directRpc(err, "PermissionError")
 //@   at call classifyAuthError assert [classified] arg0 == err
+//@ func (*HttpServer).authenticate
+//@   property C23
+//@   at call (*HttpServer).writeAuthError assert [answerserror] arg3 == err && err != nil && arg1 == w
 //@   ensures [local_refused_ret2] result == nil
-//@   ensures [local_refused_ret3] result == nil
-//@   ensures [local_accepted_ret4] result == auth
+//@   ensures [local_accepted_ret3] result == auth && err == nil
+//@ func isAuthRejection
+//@   property C23
+//@   ensures [local_outage_ret1] !result && unavailableInChain(err)
+//@   ensures [local_verdict_ret2] !unavailableInChain(err) && (result <==> (failureInChain(err) || directRpc(err, "ValueError") || directRpc(err, "PermissionError")))
+//@ func (*HttpServer).wrapPageWithPkce$1
+//@   property C23
+//@   pathvar rejection bool
+//@   at call isAuthRejection assert [verdictoferr] arg0 == err
+//@   at call isAuthRejection setflag rejection result
+//@   at call (*HttpServer).pkceRedirectToOAuth assert [loginonlyforrejection] err != nil && rejection
+//@   at call (*HttpServer).writeAuthError assert [answerserror] arg3 == err && err != nil && arg1 == w
+//@   pathflag answered
+//@   at call (*HttpServer).writeAuthError mark answered
+//@   at call (*HttpServer).pkceRedirectToOAuth mark answered
+//@   at call "captured:handler" assert [servedonlyauthenticated] !answered
 
 // classifyAuthError: the reason named by the AuthFailure in the chain (unclassified when it
 // names none); otherwise insufficient_scope for a direct PermissionError RpcError, and the
